@@ -1662,11 +1662,13 @@ fn c13(r: &Runner) {
             // HIGH degrees with a small root: the float estimate lands on the root, the first Newton step overshoots and the
             // decreasing phase walks down one by one - the longest runs of the iteration
             if i < 8 {
-                for r0 in [2u32, 3, 87, 1000, 65_537] {
+                for r0 in [2u32, 3, 61, 87, 100, 200, 1000, 65_537] {
                     let d = ((bits as f64) * 0.97 / ((r0 + 1) as f64).log2()) as usize;
                     let lo = BigUint::from(r0).pow(d as u32);
                     let hi = BigUint::from(r0 + 1).pow(d as u32);
-                    for v in [&hi - 1u32, lo.clone() + 1u32, (&lo + &hi) >> 1usize, lo.clone(), &hi - (&hi >> 7usize)] {
+                    // just below (r0 + 1/2)^d: the window in which the float estimate rounds to the root itself
+                    let mid = BigUint::from(2 * r0 + 1).pow(d as u32) >> d;
+                    for v in [&hi - 1u32, lo.clone() + 1u32, (&lo + &hi) >> 1usize, lo.clone(), &hi - (&hi >> 7usize), &mid - 1u32, &mid - (&mid >> 12usize), &mid - (&mid >> 6usize), &mid + (&mid >> 12usize)] {
                         if v.bits() as usize <= bits {
                             exec(l, bits, Op::root, &[V::U(to_limbs(&v, bits)), V::n(d)]);
                             exec(l, bits, Op::root, &[V::U(to_limbs(&v, bits)), V::n(d + 1)]);
